@@ -192,7 +192,7 @@ func (s *Solver) solve(o *Obligation) *SolveResult {
 				f = f2
 			}
 			tmo := s.TimeoutS
-			if o.Aux && (o.Kind == "post" || o.Kind == "lemma") && tmo > 3 {
+			if len(o.Tags) == 0 && (o.Kind == "post" || o.Kind == "lemma" || o.Kind == "safety" || (o.Kind == "pre" && strings.HasSuffix(o.Label, ".UNREACHABLE"))) && tmo > 3 {
 				tmo = 3 // informative clauses never decide a verdict: do not let them slow the check
 			}
 			argv := sp.argv(f, tmo)
